@@ -40,3 +40,13 @@ bool drv_resolve_exc(promise<int> *p, std::exception_ptr *e) { return (*p)(*e); 
 }
 // environment helper of the operator<< drive: "the user function starts an operation and keeps its promise" (real future<int>() + get_promise())
 extern "C" void drv_future_pending(future<int> *out, promise<int> *keep) { new(out) future<int>(); new(keep) promise<int>(out->get_promise()); }
+// ---- added (W2): the remaining blocking forwarders, the static factories and the conversion to the underlying future
+extern "C" {
+void drv_sync(SF *a) { a->sync(); }
+void drv_force_sync(SF *a) { a->force_sync(); }
+int *drv_force_wait(SF *a) { return &a->force_wait(); }
+void drv_join(SF *a) { a->join(); }
+void drv_set_exception(SF *out, std::exception_ptr *e) { new(out) SF(SF::set_exception(std::move(*e))); }
+void drv_set_value(SF *out, int v) { new(out) SF(SF::set_value(v)); }
+future<int> *drv_as_future(SF *a) { return &static_cast<future<int> &>(*a); }
+}
